@@ -195,7 +195,7 @@ fn build(seed: u64, plan_ix: u64, steps_per_thread: usize) -> Vec<FThread> {
     let shape = plan_ix % 4;
     let rough = plan_ix >= 4;
     if shape == 3 {
-        return build_hammer(&mut rng, steps_per_thread);
+        return build_hammer(&mut rng, steps_per_thread * 3, (plan_ix / 4) % 2 == 1);
     }
     // cheap, mode-sensitive kinds (Miri is ~10^4 x slower than native)
     let kinds: [usize; 8] = [0, 2, 4, 10, 11, 12, 15, 19];
@@ -283,7 +283,7 @@ fn build(seed: u64, plan_ix: u64, steps_per_thread: usize) -> Vec<FThread> {
 /// none of that may ever be visible to the first thread.  Windows of a few
 /// instructions INSIDE `set_default` are only reachable this way (seeded
 /// change s26: a counter decremented and re-incremented by a redundant reset).
-fn build_hammer(rng: &mut Rng, steps_per_thread: usize) -> Vec<FThread> {
+fn build_hammer(rng: &mut Rng, steps_per_thread: usize, togglers: bool) -> Vec<FThread> {
     let cfg = free_cfg();
     let kinds: [usize; 4] = [0, 2, 11, 19];
     let custom = {
@@ -291,28 +291,57 @@ fn build_hammer(rng: &mut Rng, steps_per_thread: usize) -> Vec<FThread> {
         if m >= HALF_EVEN { m + 1 } else { m }
     };
     let mut l0: Vec<FStep> = vec![FStep::Read, FStep::Set(custom), FStep::Spawn(1), FStep::Spawn(2), FStep::Barrier];
-    for _ in 0..steps_per_thread + 4 {
+    for _ in 0..2 * steps_per_thread + 8 {
         l0.push(FStep::Read);
         let kind = *rng.pick(&kinds);
         l0.push(FStep::Op(gen_op(rng, &cfg, kind, Class::Witness), Outcome::Unit));
     }
     l0.push(FStep::Read);
-    let mut l1: Vec<FStep> = vec![FStep::Read, FStep::Barrier];
-    for _ in 0..2 * steps_per_thread + 8 {
-        l1.push(FStep::Set(HALF_EVEN)); // redundant: the thread never left HalfEven
-    }
-    l1.push(FStep::Read);
-    let mut l2: Vec<FStep> = vec![FStep::Read, FStep::Barrier];
-    for i in 0..steps_per_thread + 4 {
-        if i % 3 == 2 {
-            // change and restore
-            let m = (custom + 1 + (i as u8 % 6)) % 8;
-            l2.push(FStep::Set(if m == HALF_EVEN { (m + 1) % 8 } else { m }));
-            l2.push(FStep::Read);
+    let other = |k: u8| {
+        let m = (custom + 1 + (k % 6)) % 8;
+        if m == HALF_EVEN { (m + 1) % 8 } else { m }
+    };
+    let (l1, l2) = if togglers {
+        // variant 1: both helpers keep leaving HalfEven and coming back (two
+        // threads inside set_default at once: lost updates of shared
+        // bookkeeping); F1 also re-asserts HalfEven redundantly
+        let mut l1: Vec<FStep> = vec![FStep::Read, FStep::Barrier];
+        for i in 0..steps_per_thread + 4 {
+            l1.push(FStep::Set(other(i as u8)));
+            l1.push(FStep::Set(HALF_EVEN));
+            l1.push(FStep::Set(HALF_EVEN));
         }
-        l2.push(FStep::Set(HALF_EVEN));
-    }
-    l2.push(FStep::Read);
+        l1.push(FStep::Read);
+        let mut l2: Vec<FStep> = vec![FStep::Read, FStep::Barrier];
+        for i in 0..(3 * steps_per_thread) / 2 + 6 {
+            l2.push(FStep::Set(other(i as u8 + 3)));
+            if i % 5 == 4 {
+                l2.push(FStep::Read);
+            }
+            l2.push(FStep::Set(HALF_EVEN));
+        }
+        l2.push(FStep::Read);
+        (l1, l2)
+    } else {
+        // variant 0: the reader is the ONLY thread with a custom mode most of
+        // the time; F1 never leaves HalfEven and keeps re-asserting it, F2
+        // changes and restores now and then
+        let mut l1: Vec<FStep> = vec![FStep::Read, FStep::Barrier];
+        for _ in 0..2 * steps_per_thread + 8 {
+            l1.push(FStep::Set(HALF_EVEN));
+        }
+        l1.push(FStep::Read);
+        let mut l2: Vec<FStep> = vec![FStep::Read, FStep::Barrier];
+        for i in 0..steps_per_thread + 4 {
+            if i % 3 == 2 {
+                l2.push(FStep::Set(other(i as u8)));
+                l2.push(FStep::Read);
+            }
+            l2.push(FStep::Set(HALF_EVEN));
+        }
+        l2.push(FStep::Read);
+        (l1, l2)
+    };
     let _ = START.set(std::sync::Barrier::new(3));
     vec![
         FThread { steps: l0, probe: false },
